@@ -36,8 +36,8 @@ META = {
     "ready": True,
     "category": "proof",
     "technique": "Lean 4 compiler-correctness theorems (code generator + stack VM with the real op codes refine the reference semantics of the lowered core with first-class closures) + a checked tie of that model to /repo: real bytecode replay on the model VM, compiler output comparison, five-way execution, op-code tables regenerated from the sources + differential execution of generated whole programs: real engine vs executable reference semantics",
-    "level_text": "Proved for every program of the lowered core with closures (SteelVerif/C01/PropsCore.lean, model C01/Core.lean: real op codes, one shared operand stack, real frame discipline): compile_correct_core / compile_correct_program (the VM running compileTop e refines evalC), closure_captures_by_reference, call_args_exact_core, tail_call_constant_frames, dead_code_never_runs_core, call_error_reported and the others listed in Audit.lean; and for the first-order fragment (Props.lean: compile_correct, read_after_write, dead_branch_*, call_arity_exact, call_args_exact). TIE of the core model to /repo, checked on every run: (1) REAL BYTECODE REPLAY - for every program the harness prints the listing of every compilation unit the engine is about to run (Engine::debug_build_strings of a clone of the very RawProgramWithSymbols that is then run; provisional global slots of the clone mapped to the slots the engine really bound via the symbol table rows); C01BC.toInstr (BCParse.lean) reads it into List C01C.Instr by the table in Core.lean's header and C01C.run executes it; value / error kind of every unit must equal the real VM's. (2) COMPILER OUTPUT COMPARISON - gen/core01.py emits programs inside the core (closures over assigned variables, let, if, begin, set!, computed / global / self-tail calls, rest arguments, boxes) as Steel source AND as lowered Core terms (scope resolution by the generator, unverified); compileTop e is compared with the real listing after the documented normalisation (READLOCALk, function ids, constant-pool indices, global slot renaming); share identical + histogram of difference classes in the evidence (a difference is not a violation). (3) FIVE-WAY RUN on these programs: evalC, C01C.run (compileTop e), C01C.run on the real listing, the real engine, and S (Base/Eval on the source) must agree unit by unit; the differing pair is printed. (4) translate/c01_opcodes.py regenerates GenOpcodes.lean (enum OpCode, arms of the dispatch loop of vm.rs); PropsTie.lean decides: every op code the reader maps to Instr exists in the enum, every one the model executes has a dispatch arm, the four word-only op codes have none (and step yields bad on them), the reader accepts no other name. (1b) EXTENDED VM (C01/BCExt.lean, not proved) for whole programs: values = the values of S (Base.Val: symbols, strings, characters, pairs, vectors and boxes in S's store; closures as handles), built-ins applied by S's own primitive table Base.applyPrim (so a difference is about compiler+VM, not primitives), output buffer compared with the real output of every unit, apply, with-handler as the real expander emits it (*reset / call-with-exception-handler / *shift as marks on frames), the 47 core op codes + FUNCNOARITY / TAILCALLNOARITY / CALLGLOBALNOARITY / CALLGLOBALTAILNOARITY; S's library procedures (Base.preludeSrc: map, filter, foldl, foldr, for-each, reduce) are handed to the real compiler as the first unit of the replayed program; every corpus + gen/progs program is replayed (values, error kind, output per unit); the tie of the extended VM to the proved one is differential: on every listing inside the core set both run and must agree. (5) C09.tailOnlyB (proved-sound static check) is evaluated on the real listings of tail-only loop shapes: accepted listings are covered by C09.core_loop_constant_space. Whole programs of the documented core language (gen/progs.py: closures, mutation, internal defines, named let, rest arguments, library procedures, handled and dead errors, output) run on the real engine (top level and as a module) and on S as before; fragment programs on evalIR / model VM / real.",
-    "level_note": "Trusted: Lean kernel, harness/driver/comparison, the reference evaluator S as the reading of Scheme semantics (deviation table in Base/Eval.lean), generator coverage, the listing reader C01BC.toInstr and the slot remapping (inspectable, not proved), the generator's lowering source -> Core (independent scope resolution; validated only by the listing comparison and the five-way run). Share replayed: all units of the core-generator programs and of the tail-only shapes on the proved core VM; ALL corpus + gen/progs whole programs on the extended VM when S's library procedures are compiled with the program (tie_core_model_to_repo.whole_programs_replayed_on_extended_vm), about 40% of the unmodified programs (the rest call the engine's own map / filter / foldl, counted per reason under whole_native_library). The extended VM is executable Lean without theorems; call/cc, dynamic-wind, continuations used other than by with-handler, floats, hash maps, the deprecated ALLOC/READALLOC/SETALLOC op codes (their real handlers panic: K01m) are outside and reported per reason. Deviation found in S: steel's `void` is the void VALUE, `(void)` applies a non-procedure; Base/Eval.lean accepts `(void)` (the replay prelude writes `void`). Not modelled: analysis.rs / the rewriting passes (inlining, lambda lifting, constant propagation show up as listing difference classes), ~55 specialised op codes that did not occur, the JIT (differential run only; differences that vanish with STEEL_JIT=false are K01j). compile_correct_core_errors and the statement for all error kinds: see PropsCore.lean.",
+    "level_text": "Proved for every program of the lowered core with closures (SteelVerif/C01/PropsCore.lean, model C01/Core.lean: real op codes, one shared operand stack, real frame discipline): compile_correct_core / compile_correct_program (the VM running compileTop e refines evalC), closure_captures_by_reference, call_args_exact_core, tail_call_constant_frames, dead_code_never_runs_core, call_error_reported and the others listed in Audit.lean; and for the first-order fragment (Props.lean: compile_correct, read_after_write, dead_branch_*, call_arity_exact, call_args_exact). TIE of the core model to /repo, checked on every run: (1) REAL BYTECODE REPLAY - for every program the harness prints the listing of every compilation unit the engine is about to run (Engine::debug_build_strings of a clone of the very RawProgramWithSymbols that is then run; provisional global slots of the clone mapped to the slots the engine really bound via the symbol table rows); C01BC.toInstr (BCParse.lean) reads it into List C01C.Instr by the table in Core.lean's header and C01C.run executes it; value / error kind of every unit must equal the real VM's. (2) COMPILER OUTPUT COMPARISON - gen/core01.py emits programs inside the core (closures over assigned variables, let, if, begin, set!, computed / global / self-tail calls, rest arguments, boxes) as Steel source AND as lowered Core terms (scope resolution by the generator, unverified); compileTop e is compared with the real listing after the documented normalisation (READLOCALk, function ids, constant-pool indices, global slot renaming); share identical + histogram of difference classes in the evidence (a difference is not a violation). (3) FIVE-WAY RUN on these programs: evalC, C01C.run (compileTop e), C01C.run on the real listing, the real engine, and S (Base/Eval on the source) must agree unit by unit; the differing pair is printed. (4) translate/c01_opcodes.py regenerates GenOpcodes.lean (enum OpCode, arms of the dispatch loop of vm.rs); PropsTie.lean decides: every op code the reader maps to Instr exists in the enum, every one the model executes has a dispatch arm, the four word-only op codes have none (and step yields bad on them), the reader accepts no other name. (1b) EXTENDED VM (C01/BCExt.lean, not proved) for whole programs: values = the values of S (Base.Val: symbols, strings, characters, pairs, vectors and boxes in S's store; closures as handles), built-ins applied by S's own primitive table Base.applyPrim (so a difference is about compiler+VM, not primitives), output buffer compared with the real output of every unit, apply, with-handler as the real expander emits it (*reset / call-with-exception-handler / *shift as marks on frames), the 47 core op codes + FUNCNOARITY / TAILCALLNOARITY / CALLGLOBALNOARITY / CALLGLOBALTAILNOARITY; S's library procedures (Base.preludeSrc: map, filter, foldl, foldr, for-each, reduce) are handed to the real compiler as the first unit of the replayed program; every corpus + gen/progs program is replayed (values, error kind, output per unit), also with the ENGINE's own Scheme definitions of map / foldl / foldr / filter (text of scheme/stdlib.scm compiled as the first unit: whole_engine_library) and in MODULE mode (the program as a required file, as `steel file.scm` runs it: mangled names, imports through %proto-hash-get%, CALLPRIMITIVE, the NOARITY call forms, SELFTAILCALLNOARITY and the specialised op codes ADD SUB MUL LTE LT GT GTE NUMEQUAL NOT CAR CDR CONS LIST NULL VECTORREF EQUAL2, each executed as the call of the built-in named in its text column through S's primitive table); the tie of the extended VM to the proved one is differential: on every listing inside the core set both run and must agree. (5) C09.tailOnlyB (proved-sound static check) is evaluated on the real listings of tail-only loop shapes: accepted listings are covered by C09.core_loop_constant_space. Whole programs of the documented core language (gen/progs.py: closures, mutation, internal defines, named let, rest arguments, library procedures, handled and dead errors, output) run on the real engine (top level and as a module) and on S as before; fragment programs on evalIR / model VM / real.",
+    "level_note": "Trusted: Lean kernel, harness/driver/comparison, the reference evaluator S as the reading of Scheme semantics (deviation table in Base/Eval.lean), generator coverage, the listing reader C01BC.toInstr and the slot remapping (inspectable, not proved), the generator's lowering source -> Core (independent scope resolution; validated only by the listing comparison and the five-way run). Share replayed: all units of the core-generator programs and of the tail-only shapes on the proved core VM; ALL corpus + gen/progs whole programs on the extended VM when S's library procedures are compiled with the program (tie_core_model_to_repo.whole_programs_replayed_on_extended_vm), about 40% of the unmodified programs (the rest call the engine's own map / filter / foldl: whole_native_library); with the engine's own stdlib.scm definitions of map / foldl / foldr / filter compiled as first unit nearly all (for-each rests on the native #%for-each: counted); the closure objects the engine itself holds are not dumped (ByteCodeLambda.body_exp is pub(crate): would need a hook). K01d, K01e, K01f, K01g, K01m are repaired in /repo: no attribution remains, a recurrence is a violation; K01l remains open for an assignment from a later unit only. The extended VM is executable Lean without theorems; call/cc, dynamic-wind, continuations used other than by with-handler, floats, hash maps, the deprecated ALLOC/READALLOC/SETALLOC op codes (their real handlers panic: K01m) are outside and reported per reason. Deviation found in S: steel's `void` is the void VALUE, `(void)` applies a non-procedure; Base/Eval.lean accepts `(void)` (the replay prelude writes `void`). Not modelled: analysis.rs / the rewriting passes (inlining, lambda lifting, constant propagation show up as listing difference classes), ~55 specialised op codes that did not occur, the JIT (differential run only; differences that vanish with STEEL_JIT=false are K01j). compile_correct_core_errors and the statement for all error kinds: see PropsCore.lean.",
 }
 
 SEP = "\n;;;===\n"
@@ -188,7 +188,10 @@ MODELLED_OPS = set("""PUSHCONST LOADINT0 LOADINT1 LOADINT2 TRUE FALSE VOID PUSH 
 READLOCAL3 MOVEREADLOCAL MOVEREADLOCAL0 MOVEREADLOCAL1 MOVEREADLOCAL2 MOVEREADLOCAL3 READCAPTURED SETLOCAL IF JMP POPJMP
 NEWSCLOSURE PUREFUNC PASS NDEFS COPYCAPTURESTACK COPYCAPTURECLOSURE ECLOSURE NEWBOX UNBOX SETBOX FUNC TAILCALL TCOJMP
 CALLGLOBAL CALLGLOBALTAIL POPPURE POPSINGLE BEGINSCOPE LetVar LETENDSCOPE SDEF EDEF BIND SET""".split())
-EXT_OPS = {"FUNCNOARITY", "TAILCALLNOARITY", "CALLGLOBALNOARITY", "CALLGLOBALTAILNOARITY"}   # C01BC.xOps beyond the core
+ALL_LABELS = ("whole", "whole_native_library", "whole_engine_library", "module", "core", "tailonly")
+# C01BC.xOps beyond the core + C01BC.specialisedOps (any op code whose text column is #%prim.NAME is accepted)
+EXT_OPS = {"FUNCNOARITY", "TAILCALLNOARITY", "CALLGLOBALNOARITY", "CALLGLOBALTAILNOARITY"} | set(
+    "ADD SUB MUL LTE LT GT GTE NUMEQUAL NOT CAR CDR CONS LIST NULL VECTORREF EQUAL2 CALLPRIMITIVE SELFTAILCALLNOARITY".split())
 ERRMAP = {"ArityMismatch": "arity", "TypeMismatch": "type", "FreeIdentifier": "free"}
 
 
@@ -198,6 +201,39 @@ def s_prelude():
     m = re.search(r'def preludeSrc : String :=\s*"(.*?)"\s*\n\s*\n', t, re.S)
     # steel's `void` is the void value itself: `(void)` would apply a non-procedure
     return m.group(1).replace('\\"', '"').replace("(void)", "void") if m else None
+
+
+def engine_library_source(names=("map", "foldl", "foldr", "filter")):
+    """The ENGINE's own definitions of library procedures that are written in Scheme
+    (/repo/crates/steel-core/src/scheme/stdlib.scm), verbatim, found by bracket matching.  (for-each, reduce, … rest on
+    native helpers: they stay the engine's.)"""
+    t = open(os.path.join(C.REPO, "crates/steel-core/src/scheme/stdlib.scm")).read()
+    out = []
+    for nm in names:
+        k = t.find("\n(define (%s " % nm)
+        if k < 0:
+            return None
+        i, depth = k + 1, 0
+        j = i
+        while j < len(t):
+            ch = t[j]
+            if ch == ";":
+                while j < len(t) and t[j] != "\n":
+                    j += 1
+                continue
+            if ch == '"':
+                j += 1
+                while j < len(t) and t[j] != '"':
+                    j += 2 if t[j] == "\\" else 1
+            elif ch in "([":
+                depth += 1
+            elif ch in ")]":
+                depth -= 1
+                if depth == 0:
+                    break
+            j += 1
+        out.append(t[i:j + 1])
+    return "\n".join(out)
 
 
 STRICT_KINDS = {"arity", "type", "notproc", "free"}
@@ -375,22 +411,6 @@ def tail_only_family(rng):
     return out
 
 
-def no_inline_param_assigners(text):
-    """Class predicate of K01g (inlined callee assigns its parameter): the same program with every top-level
-    procedure that assigns one of its own parameters made non-inlinable (`(set! f f)` right after its definition, in
-    the same unit: the inliner skips assigned names).  Returns None when the program has no such procedure."""
-    out, hit = [], False
-    for line in text.split("\n"):
-        out.append(line)
-        m = re.match(r"\(define (\S+) \(lambda \(([^)]*)\)", line) or re.match(r"\(define \((\S+)([^)]*)\)", line)
-        if m:
-            params = [x for x in m.group(2).replace(".", " ").split() if x]
-            if any("(set! %s " % x in line for x in params):
-                out.append("(set! %s %s)" % (m.group(1), m.group(1)))
-                hit = True
-    return "\n".join(out) if hit else None
-
-
 def bump(d, k, n=1):
     d[k] = d.get(k, 0) + n
 
@@ -442,13 +462,9 @@ def bc_replay(ctx, stats, label, progs, cores=None, spec=None, feats=None, known
                 # the host panicked while running this unit: never acceptable (also C07)
                 full_core = full_ext = all_agree = False
                 stats["disagreements_checked"] += 1
-                if "K01m" in known and "shouldn't be hit" in rres[1] and "ALLOC" in (rch or ""):
-                    ctx.known_finding("id=K01m " + known["K01m"])
-                    bump(stats["known_hits"], "K01m")
-                else:
-                    ctx.violation("C01-%s-panic-%d.txt" % (label, i),
-                                  "# %s: the real engine PANICS in unit %d: %s\n# program (units separated by ;;;---)\n%s\n"
-                                  "# real listing of the unit\n%s\n" % (label, ui, rres[1], p, "\n".join(ru["listing"])))
+                ctx.violation("C01-%s-panic-%d.txt" % (label, i),
+                              "# %s: the real engine PANICS in unit %d: %s\n# program (units separated by ;;;---)\n%s\n"
+                              "# real listing of the unit\n%s\n" % (label, ui, rres[1], p, "\n".join(ru["listing"])))
                 break
             if not [l for l in ru["listing"] if l.strip()] and rres[0] == "err":
                 st["compile_error_units"] += 1      # rejected by the compiler: nothing was executed
@@ -527,32 +543,7 @@ def bc_replay(ctx, stats, label, progs, cores=None, spec=None, feats=None, known
                             ctx.known_finding("id=K01j " + known["K01j"])
                             bump(stats["known_hits"], "K01j")
                             break
-                # K01d / K01f: an assigned variable is read without unboxing; the box itself shows up as a value
-                # ('#&…) in the real outcome, the model VM on the REAL listing reproduces it (RV = real), the
-                # semantics and the model compiler do not
-                sig = ru["res"][1]
-                if (feats is not None and feats[i] & {"boxed-let", "boxed-param", "set-let", "set-param"}
-                        and "K01d" in known and involves_real and "'#&" in sig
-                        and ran.get("RV") == ran.get("real") and ran.get("SE") == ran.get("MV")):
-                    ctx.known_finding("id=K01d " + known["K01d"])
-                    bump(stats["known_hits"], "K01d")
-                    break
-                # K01g: the semantics disagrees with the real engine, the model VM on the REAL listing agrees with
-                # it (the compiler's output is wrong), and the difference vanishes when the procedures that assign
-                # their own parameter cannot be inlined
-                if ("K01g" in known and involves_real and "SE" in ran and ran.get("SE") == ran.get("MV")
-                        and agree(ran.get("XV", ran.get("RV", ("?", ""))), ran["real"])):
-                    p2 = no_inline_param_assigners(p)
-                    r2 = run_real_bc([p2])[0] if p2 else None
-                    if r2 is not None:
-                        vals2 = []
-                        for u2 in parse_bc_real(r2)["units"][:ui + 1]:
-                            if u2["res"] and u2["res"][0] == "ok":
-                                vals2 += [v for v in canon_real(*u2["res"])[1] if v != "#<procedure>"]
-                        if vals2 == se_vals:
-                            ctx.known_finding("id=K01g " + known["K01g"])
-                            bump(stats["known_hits"], "K01g")
-                            break
+                # (K01d, K01f, K01g, K01m are fixed in /repo: a recurrence is a violation)
                 ctx.violation("C01-%s-%d.txt" % (label, i), text)
                 break
             if rres[0] != "ok":
@@ -709,10 +700,6 @@ def run(ctx):
             continue
         stats["disagreements_checked"] += 1
         sig = str(r["res"])
-        if f[2] and "K01d" in known and ("#&" in sig or r["res"][0] == "crash"):
-            ctx.known_finding("id=K01d " + known["K01d"])
-            stats["known_hits"]["K01d"] = stats["known_hits"].get("K01d", 0) + 1
-            continue
         ctx.violation("C01-frag-%d.txt" % i, "# fragment program (lowered IR)\n%s\n# steel source\n%s\n# real engine: %s\n# evalIR = model VM = %s\n" % (
             f[0], f[1], r["res"], ref))
         if len(ctx.violations) >= 8:
@@ -722,7 +709,7 @@ def run(ctx):
     # execute) read into `List C01C.Instr` and run by `C01C.run`; outside the modelled set: counted per reason
     tie = {}
     rng2 = random.Random(ctx.seed + 101)
-    nwhole = len(corpus) + (140 if ctx.quick() else 3000)
+    nwhole = len(corpus) + (100 if ctx.quick() else 3000)
     ctx.log("differential and fragment stages done; real bytecode replay of %d whole programs" % nwhole)
     if len(ctx.violations) < 8:
         # the library procedures S defines in the object language (map, filter, foldl, foldr, for-each, reduce) are
@@ -734,13 +721,36 @@ def run(ctx):
             ctx.violation("C01-prelude.txt", "Base/Eval.lean: preludeSrc not found", no_input=True)
         else:
             bc_replay(ctx, stats, "whole", [pre + USEP + p for p in progs[:nwhole]], known=known)
-            bc_replay(ctx, stats, "whole_native_library", progs[:len(corpus) + 60 if ctx.quick() else nwhole], known=known)
+            bc_replay(ctx, stats, "whole_native_library", progs[:len(corpus) + 40 if ctx.quick() else nwhole], known=known)
+            # the same programs with the ENGINE's own Scheme definitions of map / foldl / foldr / filter (text of
+            # stdlib.scm) compiled as the first unit: the engine's library code is executed by the model VM too
+            lib = engine_library_source()
+            nlib = len(corpus) + (40 if ctx.quick() else 1500)
+            if lib is None:
+                ctx.violation("C01-stdlib.txt", "scheme/stdlib.scm: the definitions of map / foldl / foldr / filter were not found",
+                              no_input=True)
+            else:
+                bc_replay(ctx, stats, "whole_engine_library", [lib + USEP + p for p in progs[:nlib]], known=known)
+            # MODULE mode: the program as `steel file.scm` runs it - a required module (mangled names, NOARITY and
+            # specialised arithmetic op codes, self tail calls without arity check); every top-level expression printed
+            nmodbc = len(corpus) + (50 if ctx.quick() else 1500)
+            mdir = os.path.join(C.BUILD, "C01", "bcmods-%d" % os.getpid())
+            os.makedirs(mdir, exist_ok=True)
+            mtexts = []
+            for i, p in enumerate(progs[:nmodbc]):
+                path = os.path.join(mdir, "m%d.scm" % i)
+                with open(path, "w") as f:
+                    f.write(pre + "\n" + observe_all(p) + "\n")
+                mtexts.append('(require "%s")' % path)
+            bc_replay(ctx, stats, "module", mtexts, known=known)
+            import shutil
+            shutil.rmtree(mdir, ignore_errors=True)
     ctx.log("whole-program replay done; core-language programs (listing comparison, five-way run)")
     # (d) programs INSIDE the core language, emitted as source + lowered Core term: compiler output comparison
     # (`compileTop e` vs the real listing) and the five-way run evalC / model compiler+VM / model VM on the real
     # listing / real engine / S
     if len(ctx.violations) < 8:
-        ncore = 260 if ctx.quick() else 3000
+        ncore = 180 if ctx.quick() else 3000
         cps = [gen_core_program(rng2) for _ in range(ncore)]
         ctexts = [USEP.join("\n".join(u) for u in p["units"]) for p in cps]
         cspec, crc = run_spec(["\n".join("\n".join(u) for u in p["units"]) for p in cps])
@@ -771,31 +781,36 @@ def run(ctx):
                           "# every call of a non-primitive inside a procedure body of this program is in tail position "
                           "(the tail-aware reference compiler's code passes C09.tailOnlyB), but the REAL listing is "
                           "rejected by the checker: a tail call was not compiled as a tail call\n%s\n" % src_)
-    # (f) open finding K01l (self tail call = TCOJMP keeps calling the OLD closure after the procedure's own name was
-    # assigned): directed family, real vs S; runs once the finding is listed (before that the replay file is the witness)
-    if "K01l" in known and len(ctx.violations) < 8:
+    # (f) self tail call (TCOJMP) after the procedure's own name was assigned.  Same compilation unit: repaired
+    # (442c2323), must agree with S.  Assignment in a LATER unit: open finding K01l (the old closure, reached through
+    # another variable, keeps calling itself).
+    if len(ctx.violations) < 8:
         fam2 = []
-        for sep in ("\n", USEP):
+        for later in (False, True):
             for k2 in (1, 2):
                 ps_ = " ".join("a%d" % j for j in range(k2))
-                fam2.append(sep.join([
+                fam2.append((later, (USEP if later else "\n").join([
                     "(define (lp n %s) (if (= n 0) (+ 100 n) (lp (- n 1) %s)))" % (ps_, ps_),
                     "(define keep lp)", "(set! lp (lambda (n %s) 999))" % ps_,
-                    "(keep 3 %s)" % " ".join("1" for _ in range(k2))]))
-        fr = run_real([p.replace(USEP, "\n") for p in fam2])
-        fs_, _ = run_spec([p.replace(USEP, "\n") for p in fam2])
-        for p, r, m in zip(fam2, fr, fs_):
+                    "(keep 3 %s)" % " ".join("1" for _ in range(k2))])))
+        fr = run_real_bc([p for _, p in fam2])
+        fs_, _ = run_spec([p.replace(USEP, "\n") for _, p in fam2])
+        for (later, p), rch, m in zip(fam2, fr, fs_):
             stats["programs"] += 1
-            if not same(r, m):
+            fin = parse_bc_real(rch)["final"] if rch else ("crash", "")
+            rv = [canon_val(v) for v in fin[1].split("\x1f") if v and v != "#<void>"] if fin and fin[0] == "ok" else [str(fin)]
+            sv = [canon_val(v) for v in m["res"][1]] if m["res"][0] == "ok" else [str(m["res"])]
+            if rv != sv:
                 stats["disagreements_checked"] += 1
-                if r["res"][0] == "ok" and r["res"][1][-1:] == ["100"] and m["res"][1][-1:] == ["999"]:
+                if later and "K01l" in known and rv[-1:] == ["100"] and sv[-1:] == ["999"]:
                     ctx.known_finding("id=K01l " + known["K01l"])
                     bump(stats["known_hits"], "K01l")
                 else:
-                    ctx.violation("C01-selftail-set.txt", "# %s\n# real %s\n# S %s\n" % (p, r["res"], m["res"]))
-    # (g) open finding K01m (deprecated ALLOC / SETALLOC / READALLOC op codes are still emitted when an inlined callee
-    # assigns its parameter and the caller's variable is captured; their handlers panic): directed family, real vs S
-    if "K01m" in known and len(ctx.violations) < 8:
+                    ctx.violation("C01-selftail-set-%s.txt" % ("later-unit" if later else "same-unit"),
+                                  "# %s\n# real %s\n# S %s\n" % (p, rv, sv))
+    # (g) an inlined callee assigns its parameter while the caller's variable is captured (K01g / K01m, repaired in
+    # 83175751): the deprecated ALLOC / SETALLOC / READALLOC op codes must not be executed, real must agree with S
+    if len(ctx.violations) < 8:
         fam3 = []
         for body, call in (("(- (f3 p11) p12)", "(k 4)"), ("(+ p12 (f3 p11))", "(k 1)"), ("(begin (f3 p11) p11)", "(k 0)")):
             for getk in ("(define k (car (map mk10 (list 3))))", "(define (ap h v) (h v))\n(define k (ap mk10 3))"):
@@ -806,17 +821,10 @@ def run(ctx):
             stats["programs"] += 1
             if not same(r, m):
                 stats["disagreements_checked"] += 1
-                if r["res"][0] == "panic" and "shouldn't be hit" in r["res"][1]:
-                    ctx.known_finding("id=K01m " + known["K01m"])
-                    bump(stats["known_hits"], "K01m")
-                elif "K01g" in known and r["res"][0] == "ok":
-                    ctx.known_finding("id=K01g " + known["K01g"])      # the assignment lands on the caller's variable
-                    bump(stats["known_hits"], "K01g")
-                else:
-                    ctx.violation("C01-alloc-opcodes.txt", "# %s\n# real %s\n# S %s\n" % (p, r["res"], m["res"]))
+                ctx.violation("C01-inlined-callee-assigns-parameter.txt", "# %s\n# real %s\n# S %s\n" % (p, r["res"], m["res"]))
     # which real op codes appeared in listings of this run, and which of them the model has
     seen = {}
-    for label in ("whole", "whole_native_library", "core", "tailonly"):
+    for label in ALL_LABELS:
         for k, v in stats.get(label, {}).get("opcodes_seen", {}).items():
             bump(seen, k, v)
     tie["real_opcodes_in_enum"] = tinfo.get("opcodes")
@@ -829,7 +837,7 @@ def run(ctx):
     w = stats.get("whole")
     if w:
         tie["whole_programs_replayed_on_extended_vm"] = "%d of %d" % (w["programs_fully_ext_modelled"], w["programs"])
-    for label in ("whole", "whole_native_library", "core", "tailonly"):
+    for label in ALL_LABELS:
         st = stats.get(label)
         if st:
             st.pop("opcodes_seen", None)
